@@ -15,6 +15,7 @@ import (
 	"encoding/base64"
 	"fmt"
 	"os"
+	"runtime"
 	"runtime/debug"
 	"strings"
 	"testing"
@@ -29,6 +30,7 @@ func TestVerifC10Worker(t *testing.T) {
 	if os.Getenv("VERIF_C10_WORKER") == "" {
 		t.Skip("worker entry point")
 	}
+	runtime.GOMAXPROCS(2)
 	mfgen.Serve(c10Handle)
 	os.Exit(0)
 }
@@ -164,6 +166,8 @@ type c10Harness struct {
 	confirmed bool // the process-fatal nature of an inline panic has been demonstrated once
 	cache     map[int]*c10Prep
 	cacheStr  string
+	hangs     int
+	giveUp    bool // two confirmed stalls: stop feeding inputs (each costs two watchdog periods)
 }
 
 const c10Window = 32
@@ -295,6 +299,9 @@ func (h *c10Harness) window(stream string, i, n int, build func(rng *verifkit.Ra
 		delete(h.cache, i)
 		return pr
 	}
+	if h.giveUp {
+		return build(verifkit.CaseRand(h.run.Seed(), stream, i))
+	}
 	var idxs []int
 	var preps []*c10Prep
 	step := h.run.BatchN()
@@ -315,6 +322,27 @@ func (h *c10Harness) window(stream string, i, n int, build func(rng *verifkit.Ra
 	return pr
 }
 
+func (h *c10Harness) noteHang() {
+	h.hangs++
+	if h.hangs >= 2 && !h.giveUp {
+		h.giveUp = true
+		h.run.Inconclusive("two confirmed stalls in this batch: the remaining cases of the batch were not run")
+	}
+}
+
+// ready makes sure a prepared case was executed (a stall in its window
+// leaves the cases behind it unexecuted). false: the batch has given up.
+func (h *c10Harness) ready(pr *c10Prep) bool {
+	if h.giveUp {
+		h.run.Count("skipped_after_stalls", 1)
+		return false
+	}
+	if (pr.req != nil && pr.resp == nil && pr.crash == nil) || (pr.wantPy && h.pyOK && pr.py == nil && !pr.pyHang) {
+		h.exec([]*c10Prep{pr})
+	}
+	return true
+}
+
 // goOutcome turns the worker's answer into a response or an X4 finding.
 func (h *c10Harness) goOutcome(pr *c10Prep) (*mfgen.Resp, *mfgen.Finding) {
 	req, crash, resp := pr.req, pr.crash, pr.resp
@@ -323,14 +351,13 @@ func (h *c10Harness) goOutcome(pr *c10Prep) (*mfgen.Resp, *mfgen.Finding) {
 	}
 	if crash != nil && crash.Kind == "hang" {
 		// a stall is a violation only if it reproduces in isolation
-		_, crash2, err2 := h.w.Call(req)
-		if err2 != nil || crash2 == nil || crash2.Kind != "hang" {
-			h.run.Inconclusive(fmt.Sprintf("go-manifest worker stalled once and not on retry (%q)", req.Text))
-			if crash2 == nil {
-				return nil, nil
-			}
-			crash = crash2
+		ok, why := h.w.ConfirmHang(req)
+		if !ok {
+			h.run.Inconclusive(fmt.Sprintf("go-manifest worker stalled on %q but the stall was not confirmed: %s", req.Text, why))
+			return nil, nil
 		}
+		crash.Log = why
+		h.noteHang()
 	}
 	if crash != nil {
 		h.count("worker_crashes", 1)
@@ -431,12 +458,13 @@ func (h *c10Harness) pyOutcome(pr *c10Prep) (*mfgen.PyResp, *mfgen.Finding) {
 		return nil, nil
 	}
 	if pr.pyHang {
-		_, hang2, _ := h.py.Call(map[string]interface{}{"op": "manifest", "text": pr.c.Raw, "reads": true})
-		if !hang2 {
-			h.run.Inconclusive(fmt.Sprintf("python driver stalled once and not on retry (%q)", pr.c.Raw))
+		ok, why := h.py.ConfirmHang(pr.c.Raw)
+		if !ok {
+			h.run.Inconclusive(fmt.Sprintf("python driver stalled on %q but the stall was not confirmed: %s", pr.c.Raw, why))
 			return nil, nil
 		}
-		return nil, &mfgen.Finding{Key: "X4:python-ranges:hang", Detail: fmt.Sprintf("python: no answer within %s, twice, on %q", h.py.Timeout, pr.c.Raw)}
+		h.noteHang()
+		return nil, &mfgen.Finding{Key: "X4:python-ranges:hang", Detail: fmt.Sprintf("python: no answer within %s, twice (the second time in a fresh process that had just answered a control request), on %q", h.py.Timeout, pr.c.Raw)}
 	}
 	return pr.py, nil
 }
@@ -693,6 +721,7 @@ func TestVerifC10(t *testing.T) {
 	if os.Getenv("VERIF_C10_WORKER") != "" {
 		t.Skip("worker process")
 	}
+	runtime.GOMAXPROCS(2) // the harness is sequential; fewer Ps = less scheduler churn on a busy machine
 	run := verifkit.Start(t, "C10")
 	defer run.Finish()
 	h := &c10Harness{run: run, w: mfgen.NewWorker("TestVerifC10Worker"), rep: mfgen.NewReporter(run), allPair: run.Thorough()}
@@ -736,6 +765,9 @@ func TestVerifC10(t *testing.T) {
 	run.Cases("main", n, func(i int, _ *verifkit.Rand) {
 		pr := h.window("main", i, n, func(rng *verifkit.Rand) *c10Prep { return h.prepValid(mfgen.MainCase(rng), rng, 80) })
 		run.Input(pr.c, true)
+		if !h.ready(pr) {
+			return
+		}
 		h.valid(pr)
 		if i%2000 < run.BatchN() {
 			run.Checkpoint()
@@ -745,6 +777,9 @@ func TestVerifC10(t *testing.T) {
 	run.Cases("reject", n, func(i int, _ *verifkit.Rand) {
 		pr := h.window("reject", i, n, func(rng *verifkit.Rand) *c10Prep { return h.prepAny(mfgen.RejectCase(rng)) })
 		run.Input(pr.c, true)
+		if !h.ready(pr) {
+			return
+		}
 		h.reject(pr)
 	})
 	n = run.N(6000, 150000)
@@ -757,6 +792,9 @@ func TestVerifC10(t *testing.T) {
 			return h.prepAny(c)
 		})
 		run.Input(pr.c, true)
+		if !h.ready(pr) {
+			return
+		}
 		h.garbage(pr)
 	})
 	run.Count("worker_spawns", h.w.Spawns)
